@@ -4,6 +4,7 @@ import (
 	"fmt"
 	"go/token"
 	"go/types"
+	"sort"
 	"strings"
 
 	"golang.org/x/tools/go/ssa"
@@ -183,6 +184,46 @@ func runC20(r *Run) {
 	// ---------- R4 ----------
 	r.Rule("R4", "FLOW.queries-before-the-first-block: the process-local fields that the tabled idempotent sites re-derive in BeginBlock (evm Keeper.eip155ChainID via WithChainID) are nil on a node restarted at a block boundary until its first BeginBlock. In the query scope (everything reachable from the methods implementing a QueryServer interface, which such a node answers immediately) the chain id handed to (*Keeper).EVMConfig — the value the CHAINID opcode and the signer see — never derives from such a field or its getter (directly or through same-package helpers); consensus code may use it (BeginBlock has run)")
 	checkRederivedFieldReaders(r, sc)
+	// R8: what BeginBlock re-derives is also set when the app is constructed
+	r.Rule("R8", "REACH.late-bound-fields-are-set-at-construction: a process-local field that a tabled site re-derives in every BeginBlock (the EVM keeper's EIP-155 chain id) is nil on a node that has just started until its first block — and CheckTx, simulations and queries run before that: with a nil chain id go-ethereum's signer works with chain id 0, so a restarted node rejects every correctly signed Ethereum transaction (code 24) and admits transactions signed for chain id 0 until its first block, while a node that kept running does the opposite. Each such field is therefore also stored by a function reachable from NewHaqq (construction scope), from the chain id the node was started with")
+	{
+		type fld struct{ st, f string }
+		fields := map[fld]bool{}
+		for id := range processLocalWriteExceptions {
+			if fn, ok := P.FnOK(id); ok {
+				eachInstr(fn, func(in ssa.Instruction) {
+					if st, ok := in.(*ssa.Store); ok {
+						if sn, f, ok := fieldOfAddr(st.Addr); ok {
+							fields[fld{sn, f}] = true
+						}
+					}
+				})
+			}
+		}
+		var keys []string
+		for k := range fields {
+			keys = append(keys, k.st+"."+k.f)
+		}
+		sort.Strings(keys)
+		for _, key := range keys {
+			parts := strings.SplitN(key, ".", 2)
+			writer := ""
+			for _, g := range sc.K.HaqqFuncs() {
+				eachInstr(g, func(in ssa.Instruction) {
+					if st, ok := in.(*ssa.Store); ok && writer == "" {
+						if sn, f, ok := fieldOfAddr(st.Addr); ok && sn == parts[0] && f == parts[1] {
+							if _, isConst := st.Val.(*ssa.Const); !isConst {
+								writer = fnID(g)
+							}
+						}
+					}
+				})
+			}
+			r.Check(writer != "", "R8", key+"#set-at-construction", "", "stored by "+writer+" (reachable from NewHaqq)",
+				"the process-local field "+key+" is written only by its BeginBlock re-derivation: between process start and the first block it is nil, and CheckTx / queries that read it behave differently on a restarted node (Ethereum transactions are checked against chain id 0)")
+		}
+		r.Floor("R8", "late-bound process-local fields", len(keys), 1)
+	}
 
 	// ---------- R5 ----------
 	r.Rule("R5", "TABLE.memory-stores: memory stores are empty after a restart. NewHaqq creates memory store keys only for the tabled dependency module that rebuilds its memory store itself (capability); no Haqq keeper is wired with a memory store key and no Haqq function passes a *MemoryStoreKey to ctx.KVStore — a consensus value parked in a memory store is gone on a restarted node")
